@@ -75,6 +75,10 @@ def gen_value(rng, uid, kinds):
         return k, rng.choice([math.pi, 2 / 3, 0.1 + 0.2, 1 / 3, 0.1234567890123456, -98765.43210987654, 1e-7 / 3, 123456789.12345679]) * (1 + uid) + rng.random()
     if k == 'bool':
         return k, bool(uid % 2)
+    if k == 'small':
+        # the few values every real workbook repeats in many cells - and that are EQUAL across kinds in Python (1 == True == 1.0, 0 == False):
+        # a cell holds the value AND the kind that was stored
+        return k, rng.choice([0, 1, True, False, 0, 1, True, False, 2, -1, 0.5, '1', '0', 'TRUE', 'FALSE', 'x', 'X', '1.0', 1.5])
     if k == 'text':
         return k, f't{uid}'
     if k == 'qtext':
@@ -96,7 +100,7 @@ def gen_value(rng, uid, kinds):
     raise ValueError(k)
 
 
-KINDS = ['int', 'int', 'negint', 'float', 'float', 'float17', 'float17', 'intfloat', 'bool', 'text', 'text', 'qtext', 'numtext', 'errtext', 'date',
+KINDS = ['small', 'small', 'small', 'small', 'int', 'int', 'negint', 'float', 'float', 'float17', 'float17', 'intfloat', 'bool', 'text', 'text', 'qtext', 'numtext', 'errtext', 'date',
          'datetime', 'time', 'eqtext']
 
 
@@ -152,7 +156,7 @@ def gen_book(rng, tier, far=False):
             plant[(si, r, c)] = (k, v)
         sheets.append({'title': t, 'cells': cells, 'layout': lay})
     # probe formulas: on each sheet, in a cell that is free, read one planted constant (own or other sheet)
-    consts = [(k, v) for k, v in plant.items() if v[0] in ('int', 'negint', 'float', 'float17', 'text', 'bool', 'numtext', 'qtext')]
+    consts = [(k, v) for k, v in plant.items() if v[0] in ('int', 'negint', 'float', 'float17', 'text', 'bool', 'numtext', 'qtext', 'small')]
     probes = {}
     if consts and not far:
         for si, sh in enumerate(sheets):
